@@ -126,6 +126,7 @@ type Interp struct {
 	xx           map[*Value]*xxState
 	selCount     map[*ssa.Select]int
 	expired      atomic.Bool
+	controller   *Thread
 }
 
 func NewInterp(prog *ssa.Program, cfg Config) (*Interp, error) {
